@@ -46,7 +46,10 @@ Variable minws : St -> St -> St.            (* minimize_whitespace_line_differen
 Variable is_empty : St -> bool.             (* not source *)
 Variable terminated : St -> bool.           (* source[-1] in "\r\n" *)
 Variable add_nl : St -> St.                 (* source + "\n" *)
-Variable ends_lf : St -> bool.              (* formatted.endswith("\n") *)
+Variable ends_lf : St -> bool.              (* the final line break may be dropped: formatted.endswith("\n") and
+                                               formatted[:-1] does not end in a backslash followed by a line break
+                                               (there it ends the statement: fix d3c334f); for an unterminated s,
+                                               ends_lf (add_nl s) holds, as T04.8' assumes *)
 Variable drop_last : St -> St.              (* formatted[:-1] *)
 
 Variable n_multi : nat.                     (* number of statements of _multi_run_fixes *)
@@ -495,3 +498,45 @@ Fixpoint bad_idx_from {X} (ok : X -> bool) (i : nat) (l : list X) : list nat :=
   | c :: tl => if ok c then bad_idx_from ok (S i) tl else i :: bad_idx_from ok (S i) tl
   end.
 Definition bad_idx {X} (ok : X -> bool) (l : list X) : list nat := bad_idx_from ok O l.
+
+(* ---------------------------------------------------------------------------------------- *)
+(* Round 5 (seed C04-d): which constants symbolic_math.simplify_boolean_expressions collects as
+   BOUNDS of an operand (symbolic_math.py, `if not isinstance(right, (int, float, bool)): continue`).
+   Everything collected for one operand is afterwards compared pairwise with <, <=, >, >= on the raw
+   Python values, without any try/except: the isinstance guard is what makes those comparisons total. *)
+Inductive bkind := BkInt | BkFloat | BkBool | BkStr | BkBytes | BkNone | BkTuple | BkComplex.
+
+Definition bkind_eqb (a b : bkind) : bool :=
+  match a, b with
+  | BkInt, BkInt | BkFloat, BkFloat | BkBool, BkBool | BkStr, BkStr | BkBytes, BkBytes | BkNone, BkNone
+  | BkTuple, BkTuple | BkComplex, BkComplex => true
+  | _, _ => false
+  end.
+
+(* the guard of the implementation: the kinds of constants admitted as bounds *)
+Definition bound_admitted (k : bkind) : bool :=
+  match k with BkInt | BkFloat | BkBool => true | _ => false end.
+
+(* Reference semantics (a DEFINITION, validated against CPython by harness/c04.py): `a < b` returns
+   a value, for ALL constants a of kind k1 and b of kind k2 (tuples: (1, 'a') < (1, 2) raises) *)
+Definition orderable (k1 k2 : bkind) : bool :=
+  match k1, k2 with
+  | (BkInt | BkFloat | BkBool), (BkInt | BkFloat | BkBool) => true
+  | BkStr, BkStr => true
+  | BkBytes, BkBytes => true
+  | _, _ => false
+  end.
+
+(* the bounds the analysis keeps for one operand, and the totality of its pairwise comparisons *)
+Definition collected_bounds (ks : list bkind) : list bkind := filter bound_admitted ks.
+Definition comparisons_total (ks : list bkind) : bool :=
+  forallb (fun a => forallb (orderable a) ks) ks.
+
+Inductive kind_case :=
+  | AdmitCase (k : bkind) (takes_part : bool)          (* observed: two bounds of kind k are (not) reduced *)
+  | OrderCase (k1 k2 : bkind) (always_defined : bool). (* observed on CPython: a < b never raises *)
+Definition kind_case_ok (c : kind_case) : bool :=
+  match c with
+  | AdmitCase k b => Bool.eqb (bound_admitted k) b
+  | OrderCase k1 k2 b => Bool.eqb (orderable k1 k2) b
+  end.
